@@ -264,3 +264,199 @@ def overflow_capacity_formula(ctx, rid):
                 ok = True
     ctx.decide(o2, ok, "depots.push(overflow depot)", "the overflow depot is built but never added to the depots: no start/end nodes exist for it and "
                "every fallback to the overflow depot panics")
+
+
+def flatten(e, sign=1, out=None):
+    """signed terms of a +/- tree"""
+    out = [] if out is None else out
+    if e[0] == "bin" and e[1] == "Add":
+        flatten(e[2], sign, out)
+        flatten(e[3], sign, out)
+    elif e[0] == "bin" and e[1] == "Sub":
+        flatten(e[2], sign, out)
+        flatten(e[3], -sign, out)
+    else:
+        out.append((sign, e))
+    return out
+
+
+def tour_delta_signs(ctx, rid):
+    """the incrementally maintained figures of a tour: new = old - (what leaves) + (what comes).  Decided per term of the
+    +/- tree that feeds new_precomputed: terms about the removed segment / the old depot are subtracted, terms about the new
+    nodes / the new depot / the closed gap are added, and the base is the figure of self."""
+    from .. import prov
+    from .common import TOUR_PRE
+    cm = prov.ctor_map(ctx.prog, TOUR_PRE, TOUR)
+    if cm is None:
+        return
+    fields = ("useful_duration", "service_distance", "dead_head_distance", "costs")
+    for name in ("replace_start_depot", "replace_end_depot", "remove", "insert_path"):
+        key = T(name)
+        fd = ctx.fd(key)
+        if fd is None:
+            continue
+        sites = [c for c in fd.body.calls() if c.callee == TOUR_PRE]
+        if len(sites) != 1:
+            continue
+        site = sites[0]
+        for f in fields:
+            if name.startswith("replace_") and f in ("useful_duration", "service_distance"):
+                continue
+            o = ctx.ob("%s.%s.%s.signs" % (rid, name, f), "T12", key,
+                       "%s: new %s = self.%s - (what leaves) + (what comes)" % (name, f, f))
+            o.loc = site.line()
+            e = shape.normalise(shape.expr(fd, site.args[cm[f] - 1]))
+            alts = e[1] if e[0] == "phi" else [e]
+            bad, und, ok_n = [], [], 0
+            for alt in alts:
+                terms = flatten(alt)
+                base = [t for s, t in terms if t[0] == "field" and t[2] == f]
+                if not base:
+                    continue        # a from-scratch recomputation (the Infinity guard) or an Option wrapper
+                if [s for s, t in terms if t[0] == "field" and t[2] == f] != [1]:
+                    bad.append("self.%s does not enter once with a plus sign" % f)
+                    continue
+                for s, t in terms:
+                    if t[0] == "field" and t[2] == f:
+                        continue
+                    calls = shape.calls_of(t)
+                    ps = shape.params_of(t)
+                    want = None
+                    if any(c.endswith("_of_segment") for c in calls):
+                        want = -1
+                    elif any(c.endswith("_of_new_nodes") for c in calls):
+                        want = 1
+                    elif any(c.endswith("Iterator::sum") for c in calls):
+                        # a sum over positions of self (a range) leaves, a sum over the new nodes comes
+                        if any(c.startswith("agg:") and "Range" in c for c in calls):
+                            want = -1           # positions start..end of self
+                        elif 2 in ps or any(c.endswith("Path::consume") or c.endswith("Path::iter") for c in calls):
+                            want = 1            # the nodes of the inserted path
+                        else:
+                            want = -1 if name != "insert_path" else None
+                    elif any("between" in c.split("::")[-1] for c in calls):
+                        if name.startswith("replace_"):
+                            want = 1 if 2 in ps else -1
+                        elif name == "remove":
+                            want = 1            # the dead-head trip that closes the gap
+                    elif t[0] == "const" or (t[0] == "phi" and all(a[0] == "const" for a in t[1])):
+                        continue
+                    if want is None:
+                        und.append(shape.show(t))
+                    elif want != s:
+                        bad.append("%s%s although it describes what %s" % ("+" if s > 0 else "-", shape.show(t), "leaves" if want < 0 else "comes"))
+                    else:
+                        ok_n += 1
+            if bad:
+                ctx.bad(o, "; ".join(bad[:2]) + ": the cached %s of the new tour is wrong from here on" % f, loc=site.line())
+            elif ok_n and not und:
+                ctx.ok(o, "%d signed term(s) as documented" % ok_n)
+            else:
+                ctx.undecided(o, "terms not recognised: %s" % ", ".join(und[:3]) if und else "the expression is not a +/- tree over self.%s" % f)
+
+
+def _roots_with(fd, wanted_call_suffixes, types=("u64", "i64", "u32")):
+    """(instr, expr) of the +/- expressions of the body that contain a call to one of the wanted callees"""
+    out = []
+    for ins in fd.body.instrs():
+        if ins.kind == "assign" and ins.rv_kind() == "binop" and shape.norm_op(ins.rv["op"]) in ("Add", "Sub") \
+                and any(ins.rv.get("aty", "").startswith(t) for t in types):
+            e = shape.normalise(shape.expr_of_instr(fd, ins))
+            if any(any(c.endswith(w) for w in wanted_call_suffixes) for c in shape.calls_of(e)):
+                out.append((ins, e))
+    return out
+
+
+def schedule_cost_signs(ctx, rid):
+    """the running total of a schedule's costs: the costs of the tour that is installed are added, those of the tour it replaces
+    (the one looked up in the tour map) are subtracted"""
+    LOOKUPS = ("HashMap::get", "HashMap::remove", "Schedule::tour_of", "Index::index")
+    for key in sorted(ctx.prog.bodies):
+        if not key.startswith(SCHEDULE + "::") or ctx.prog.bodies[key].is_closure or getattr(ctx.prog.bodies[key], "test_unit", False):
+            continue
+        if "verify_consistency" in key:
+            continue
+        fd = ctx.an.fd(key)
+        roots = _roots_with(fd, ("Tour::costs",), types=("u64",))
+        if not roots:
+            continue
+        o = ctx.ob("%s.%s.cost-signs" % (rid, key.split("::")[-1]), "T12", key,
+                   "%s: costs of the installed tour are added, costs of the replaced tour are subtracted" % key.split("::")[-1])
+        o.loc = roots[0][0].line()
+        bad, n = [], 0
+        for ins, e in roots:
+            for s, t in flatten(e):
+                cs = shape.calls_of(t)
+                if not any(c.endswith("Tour::costs") for c in cs) or t[0] != "call" or not t[1].endswith("Tour::costs"):
+                    continue
+                arg = t[2][0] if t[2] else ("?",)
+                # the replaced tour is the one *looked up*; a tour computed FROM the looked-up one (insert_path(get(..), ..)) is new
+                old = arg[0] == "call" and any(arg[1].endswith(l) for l in LOOKUPS)
+                n += 1
+                if old and s > 0:
+                    bad.append((ins, "the costs of the tour looked up in the map (the one being replaced) are ADDED: %s" % shape.show(e)))
+                elif not old and s < 0:
+                    bad.append((ins, "the costs of the new tour are SUBTRACTED: %s" % shape.show(e)))
+        if bad:
+            ctx.bad(o, bad[0][1] + " - the cached total costs drift away from the sum over the tours", loc=bad[0][0].line())
+        elif n:
+            ctx.ok(o, "%d signed tour-cost term(s)" % n)
+        else:
+            ctx.undecided(o, "no signed Tour::costs term recognised")
+
+
+def transition_total_signs(ctx, rid):
+    """totals of a transition after a cycle changed: the new cycle's counter (clamped at 0 for the violation) is added, the old
+    cycle's is subtracted"""
+    MC = TCYCLE + "::maintenance_counter"
+    for key in sorted(ctx.prog.bodies):
+        if not key.startswith(TRANSITION + "::") or ctx.prog.bodies[key].is_closure or getattr(ctx.prog.bodies[key], "test_unit", False):
+            continue
+        if "verify_consistency" in key or "one_cluster" in key or "new_fast" in key:
+            continue
+        fd = ctx.an.fd(key)
+        sites = [c for c in fd.body.calls() if c.callee == TRANSITION + "::new" or False]
+        roots = _roots_with(fd, ("TransitionCycle::maintenance_counter",), types=("i64",))
+        # only the expressions over the totals of self
+        roots = [(i, e) for i, e in roots if any(t[0] == "field" and t[2] in ("total_maintenance_violation", "total_maintenance_counter")
+                                                 for _, t in flatten(e))]
+        if not roots:
+            continue
+        o = ctx.ob("%s.%s.total-signs" % (rid, key.split("::")[-1]), "T12", key,
+                   "%s: total = self.total + (new cycle) - (old cycle)" % key.split("::")[-1])
+        o.loc = roots[0][0].line()
+        bad, n = [], 0
+        for ins, e in roots:
+            terms = flatten(e)
+            fld = [t[2] for _, t in terms if t[0] == "field"]
+            for s, t in terms:
+                if t[0] == "field":
+                    if s < 0:
+                        bad.append((ins, "self.%s is subtracted" % t[2]))
+                    continue
+                inner = t
+                clamped = False
+                if inner[0] == "bin" and inner[1] in ("Max", "Min"):
+                    clamped = inner[1]
+                    inner = inner[2] if inner[2][0] != "const" else inner[3]
+                if clamped == "Min":
+                    bad.append((ins, "a cycle's counter is clamped with min(.., 0) instead of max(.., 0): %s" % shape.show(e)))
+                    continue
+                if "total_maintenance_violation" in fld and not clamped and inner[0] != "const":
+                    bad.append((ins, "a counter enters the total violation unclamped: %s" % shape.show(e)))
+                    continue
+                if "total_maintenance_counter" in fld and clamped:
+                    continue    # reported by the plain-sum rule
+                is_old = inner[0] == "call" and inner[1].endswith("TransitionCycle::maintenance_counter") \
+                    and inner[2] and inner[2][0][0] != "param"  # the counter of a cycle that is looked up; a cycle handed in is the new one
+                n += 1
+                if is_old and s > 0:
+                    bad.append((ins, "the OLD cycle's counter is added: %s" % shape.show(e)))
+                elif not is_old and s < 0 and inner[0] != "const":
+                    bad.append((ins, "the NEW cycle's counter is subtracted: %s" % shape.show(e)))
+        if bad:
+            ctx.bad(o, bad[0][1] + " - the cached totals (and the maintenance violation of the objective) are wrong", loc=bad[0][0].line())
+        elif n:
+            ctx.ok(o, "%d signed counter term(s)" % n)
+        else:
+            ctx.undecided(o, "no signed counter term recognised")
